@@ -68,7 +68,11 @@ def parseMode (ws : List String) : Option FlowsSt := do
   else if mode == "engine" || mode == "engine2" then
     let lo ← kvInt ws "lo"
     let hi ← kvInt ws "hi"
-    if t.isNone then none
+    -- `fm=GET`: the status Filter carries a second criterion (method); the range is a numeric filter either way
+    let fmOk := match kv ws "fm" with
+      | none => true
+      | some m => mode == "engine" && m == "GET"
+    if t.isNone || !fmOk then none
     else if mode == "engine" then pure { engine := true, timeout := t, lo := lo, hi := hi }
     else
       let same ← match kv ws "url2" with
